@@ -143,6 +143,9 @@ func confirms(v *interp.Violation, r nativeResult) bool {
 	case "deadlock", "hang":
 		return r.Outcome == "timeout"
 	}
+	if strings.HasPrefix(v.Label, "lock: ") {
+		return r.Outcome == "race" || r.Outcome == "crash"
+	}
 	if r.Outcome == "fail" {
 		for _, l := range r.Labels {
 			if l == v.Label {
